@@ -33,7 +33,7 @@ SUB_KINDS = ["exit1", "stderr_error", "garbage", "kill_parent_after", "kill_pare
 Q_KINDS = ["exit1", "stderr_error", "garbage"]
 
 
-QUICK_BUDGET = {"cases": 560, "deadline_s": 170, "case_timeout_s": 120, "floors": {"faults_injected": 196, "second_runs_checked": 196, "kill_points": 42, "write_kills": 40}}
+QUICK_BUDGET = {"cases": 600, "deadline_s": 170, "case_timeout_s": 120, "floors": {"faults_injected": 196, "second_runs_checked": 196, "kill_points": 42, "write_kills": 40}}
 THOROUGH_FACTOR = 12  # thorough = the same workload with 12x the cases (floors scale along)
 
 
@@ -63,6 +63,10 @@ def fault_list(sched, n, pre):
         fl.append({"where": "fsevent", "contains": ["backend-tracked"], "nth": n_})
     for n_ in (1, 2):
         fl.append({"where": "fsevent", "contains": ["spec-hashes"], "nth": n_})
+    # kill right AFTER a state file has been renamed into place (unflushed buffers are lost)
+    for n_ in (1, 2, 3):
+        fl.append({"where": "afterreplace", "contains": ["backend-tracked"], "nth": n_})
+    fl.append({"where": "afterreplace", "contains": ["spec-hashes"], "nth": 1})
     return fl
 
 
@@ -73,8 +77,8 @@ def gen_case(rng, idx, tier):
         for t in dag["targets"]:
             t["spec"] = "echo %s\n" % t["name"]
         return {"sched": "local", "dag": dag, "pre": rng.random() < 0.5, "hashing": rng.random() < 0.5, "fault": {"where": "enqueue", "k": rng.randint(1, n), "kind": rng.choice(["drop", "garbage", "wrong_kind", "reset"])}}
-    wf_rng = random.Random(idx // 56 * 7919 + 13)
-    sched = ["slurm", "slurm", "sge", "lsf", "slurm-noacct"][(idx // 56) % 5]
+    wf_rng = random.Random(idx // 60 * 7919 + 13)
+    sched = ["slurm", "slurm", "sge", "lsf", "slurm-noacct"][(idx // 60) % 5]
     n = wf_rng.randint(3, 7)
     dag = gen.gen_dag(wf_rng, n_targets=n, p_noout=0.0, shapes=wf_rng.choice(["chain", "diamond", "fan", "random"]))
     for t in dag["targets"]:
@@ -87,7 +91,7 @@ def gen_case(rng, idx, tier):
     if noacct:
         fl = [f for f in fl if f.get("cmd") != "sacct"]
     # systematic walk through the fault list, random beyond it
-    f = fl[(idx % 56) % len(fl)] if (idx % 56) < len(fl) else rng.choice(fl)
+    f = fl[(idx % 60) % len(fl)] if (idx % 60) < len(fl) else rng.choice(fl)
     return {"sched": sched, "dag": dag, "pre": pre, "hashing": hashing, "fault": f, "noacct": noacct}
 
 
@@ -222,13 +226,15 @@ def run_case(case):
             sim.set_faults([{"cmd": f["cmd"], "nth": f["k"], "kind": f["kind"]}])
         elif f["where"] == "fsevent":
             fp = {"kind": "kill_at_fs_event", "contains": f["contains"], "nth": f["nth"]}
+        elif f["where"] == "afterreplace":
+            fp = {"kind": "kill_after_replace", "contains": f["contains"], "nth": f["nth"]}
         else:
             fp = {"kind": "kill_in_write", "suffix": f["suffix"], "nth": 1, "after": f["after"], "half_len": 9}
         r1 = cli.gwf(proj.root, ["run"], env, failpoint=fp)
         sim.set_faults([])
         res.mon("faults_injected")
         killed = (r1.rc is not None and r1.rc < 0) or r1.rc == 137
-        if f["where"] in ("write", "fsevent"):
+        if f["where"] in ("write", "fsevent", "afterreplace"):
             res.mon("write_kills")
             if f.get("suffix") == "spec-hashes.json" and not case["hashing"]:
                 killed = False
@@ -315,6 +321,9 @@ def run_case(case):
         elif f["where"] == "query":
             res.sig = (sched, f["cmd"], f["kind"], case["hashing"], case["pre"])
             res.nontrivial = case["pre"]
+        elif f["where"] == "afterreplace":
+            res.sig = (sched, "afterreplace", f["contains"][0], f["nth"], case["hashing"], case["pre"], killed)
+            res.nontrivial = True
         elif f["where"] == "fsevent":
             res.sig = (sched, "fsevent", f["contains"][0], f["nth"], case["hashing"], case["pre"], killed)
             res.nontrivial = True
